@@ -361,11 +361,18 @@ def r18_4(ctx, rc):
                 for c in fi[1]:
                     if c in ('list', 'tuple', 'dict', 'bool'):
                         cname = c
-        if cname in ('list', 'tuple') and isinstance(st, ast.Return):
+        if cname in ('list', 'tuple') and isinstance(st, ast.Assign) and \
+                isinstance(st.value, (ast.List, ast.Tuple)) and \
+                'list' not in enc:
+            try:
+                enc['list'] = tuple(ast.literal_eval(st.value))
+            except Exception:
+                enc['list'] = None
+        elif cname in ('list', 'tuple') and isinstance(st, ast.Return):
             v = st.value
             if isinstance(v, ast.BinOp) and isinstance(v.op, ast.Add):
                 enc['list'] = _const_tuple(v.left)
-            elif isinstance(v, ast.Call) and v.args:
+            elif isinstance(v, ast.Call) and v.args and 'list' not in enc:
                 enc['list'] = None
         elif cname == 'dict' and isinstance(st, ast.Assign) and isinstance(
                 st.value, (ast.List, ast.Tuple)):
